@@ -271,18 +271,32 @@ static void set_common_ctls(vrng *r, int *br, int *cx, int *vbr, int *cvbr, int 
 /* ---- enc: the three entry points produce identical packets */
 static void run_enc(uint64_t seed, long cases)
 {
-   long c, frames = 0, distinct_cfg = 0, bytes = 0;
-   static opus_int16 p16[2880 * 2]; static opus_int32 p24[2880 * 2]; static float pf[2880 * 2];
+   long c, frames = 0, distinct_cfg = 0, bytes = 0, expert_cfg = 0, lookahead_frames = 0;
    unsigned char k16[4000], k24[4000], kf[4000];
    for (c = case0; c < case0 + cases; c++) {
-      vrng r; int Fs, ch, app, br, cx, vbr, cvbr, depth, fec, dtx, sig, err, f, nframes, kind, amp, fsz, i;
+      vrng r; int Fs, ch, app, br, cx, vbr, cvbr, depth, fec, dtx, sig, err, f, nframes, kind, amp, fsz, i, di, expert, look = 0, bufsz;
       OpusEncoder *e16, *e24, *ef; OpusEncoder *es[3]; double ph[2] = {0, 0.7};
-      char inp[400], exp[200], obs[200];
+      opus_int16 *s16; opus_int32 *p24; float *pf;
+      char inp[460], exp[200], obs[200];
       static const int apps[] = {OPUS_APPLICATION_VOIP, OPUS_APPLICATION_AUDIO, OPUS_APPLICATION_RESTRICTED_LOWDELAY};
+      static const int fdur[] = {OPUS_FRAMESIZE_2_5_MS, OPUS_FRAMESIZE_5_MS, OPUS_FRAMESIZE_10_MS, OPUS_FRAMESIZE_20_MS, OPUS_FRAMESIZE_40_MS, OPUS_FRAMESIZE_60_MS};
       r.s = seed * 1000003ULL + c;
       Fs = rates[vbelow(&r, 5)]; ch = vrange(&r, 1, 2); app = apps[vbelow(&r, 3)];
       set_common_ctls(&r, &br, &cx, &vbr, &cvbr, &depth, &fec, &dtx, &sig);
-      fsz = durs48[vbelow(&r, 6)] * (Fs / 1000) / 48;
+      /* expert frame duration: the encoder codes a fixed duration that is SHORTER than the buffer handed in, the rest of the
+         buffer is look-ahead for the signal analysis (analysis_frame_size != frame_size in opus_encode_native); the caller
+         advances by the coded duration.  Biased to configurations where the analysis runs (complexity >= 7, Fs >= 16 kHz). */
+      expert = vchance(&r, 40);
+      if (expert) {
+         if (vchance(&r, 80)) cx = vrange(&r, 7, 10);
+         if (vchance(&r, 80)) Fs = rates[vrange(&r, 2, 4)];
+         if (vchance(&r, 70) && app == OPUS_APPLICATION_RESTRICTED_LOWDELAY) app = vchance(&r, 50) ? OPUS_APPLICATION_AUDIO : OPUS_APPLICATION_VOIP;
+      }
+      di = vbelow(&r, 6);
+      if (expert && vchance(&r, 60)) di = vrange(&r, 2, 3);                      /* 10 / 20 ms */
+      fsz = durs48[di] * (Fs / 1000) / 48;
+      if (expert) look = vchance(&r, 70) ? fsz * vrange(&r, 1, 2) : (vchance(&r, 50) ? vrange(&r, 1, fsz) : 0);
+      bufsz = fsz + look;
       kind = vbelow(&r, 6); amp = vchance(&r, 30) ? 32767 : vrange(&r, 50, 30000); nframes = vrange(&r, 5, 12);
       e16 = opus_encoder_create(Fs, ch, app, &err); e24 = opus_encoder_create(Fs, ch, app, &err); ef = opus_encoder_create(Fs, ch, app, &err);
       es[0] = e16; es[1] = e24; es[2] = ef;
@@ -292,20 +306,27 @@ static void run_enc(uint64_t seed, long cases)
          opus_encoder_ctl(es[i], OPUS_SET_LSB_DEPTH(depth)); opus_encoder_ctl(es[i], OPUS_SET_INBAND_FEC(fec));
          opus_encoder_ctl(es[i], OPUS_SET_PACKET_LOSS_PERC(fec ? 15 : 0)); opus_encoder_ctl(es[i], OPUS_SET_DTX(dtx));
          opus_encoder_ctl(es[i], OPUS_SET_SIGNAL(sig));
+         if (expert) opus_encoder_ctl(es[i], OPUS_SET_EXPERT_FRAME_DURATION(fdur[di]));
       }
-      distinct_cfg++;
-      snprintf(inp, sizeof inp, "c13_pcm enc %llu: case %ld Fs=%d ch=%d app=%d bitrate=%d complexity=%d vbr=%d cvbr=%d lsb_depth=%d fec=%d dtx=%d signal=%d frame=%d kind=%d amp=%d",
-               (unsigned long long)seed, c, Fs, ch, app, br, cx, vbr, cvbr, depth, fec, dtx, sig, fsz, kind, amp);
+      distinct_cfg++; expert_cfg += expert;
+      snprintf(inp, sizeof inp, "c13_pcm enc %llu: case %ld Fs=%d ch=%d app=%d bitrate=%d complexity=%d vbr=%d cvbr=%d lsb_depth=%d fec=%d dtx=%d signal=%d frame=%d expert_frame_duration=%d buffer=%d kind=%d amp=%d",
+               (unsigned long long)seed, c, Fs, ch, app, br, cx, vbr, cvbr, depth, fec, dtx, sig, fsz, expert ? fdur[di] : OPUS_FRAMESIZE_ARG, bufsz, kind, amp);
+      /* the whole stream up front (the look-ahead of call f is the audio of calls f+1, f+2) */
+      s16 = (opus_int16 *)malloc(sizeof(opus_int16) * ((size_t)nframes * fsz + look + 1) * ch);
+      p24 = (opus_int32 *)malloc(sizeof(opus_int32) * (size_t)(bufsz + 1) * ch); pf = (float *)malloc(sizeof(float) * (size_t)(bufsz + 1) * ch);
       for (f = 0; f < nframes; f++) {
-         int l16, l24, lf; opus_uint32 r16, r24, rf;
          if (f == nframes / 2 && vchance(&r, 30)) kind = 5;   /* switch to digital silence mid-stream */
-         gen_int16(&r, p16, fsz, ch, kind, ph, amp);
-         for (i = 0; i < fsz * ch; i++) { p24[i] = 256 * (opus_int32)p16[i]; pf[i] = (float)p16[i] / 32768.f; }
-         l16 = opus_encode(e16, p16, fsz, k16, sizeof k16);
-         l24 = opus_encode24(e24, p24, fsz, k24, sizeof k24);
-         lf = opus_encode_float(ef, pf, fsz, kf, sizeof kf);
+         gen_int16(&r, s16 + (size_t)f * fsz * ch, fsz, ch, kind, ph, amp);
+      }
+      if (look) gen_int16(&r, s16 + (size_t)nframes * fsz * ch, look, ch, kind, ph, amp);
+      for (f = 0; f < nframes; f++) {
+         int l16, l24, lf; opus_uint32 r16, r24, rf; const opus_int16 *p16 = s16 + (size_t)f * fsz * ch;
+         for (i = 0; i < bufsz * ch; i++) { p24[i] = 256 * (opus_int32)p16[i]; pf[i] = (float)p16[i] / 32768.f; }
+         l16 = opus_encode(e16, p16, bufsz, k16, sizeof k16);
+         l24 = opus_encode24(e24, p24, bufsz, k24, sizeof k24);
+         lf = opus_encode_float(ef, pf, bufsz, kf, sizeof kf);
          opus_encoder_ctl(e16, OPUS_GET_FINAL_RANGE(&r16)); opus_encoder_ctl(e24, OPUS_GET_FINAL_RANGE(&r24)); opus_encoder_ctl(ef, OPUS_GET_FINAL_RANGE(&rf));
-         frames++;
+         frames++; if (look) lookahead_frames++;
          if (l16 > 0) bytes += l16;
          if (l16 != l24 || l16 != lf || (l16 > 0 && (memcmp(k16, k24, l16) || memcmp(k16, kf, l16))) || r16 != r24 || r16 != rf) {
             int k = snprintf(obs, sizeof obs, "frame %d: len16=%d len24=%d lenf=%d rng=%08x/%08x/%08x p16=", f, l16, l24, lf, r16, r24, rf);
@@ -315,19 +336,20 @@ static void run_enc(uint64_t seed, long cases)
             break;
          }
       }
+      free(s16); free(p24); free(pf);
       opus_encoder_destroy(e16); opus_encoder_destroy(e24); opus_encoder_destroy(ef);
    }
-   printf("STAT cases=%ld configs=%ld packet_bytes=%ld witnesses=%ld\n", frames, distinct_cfg, bytes, n_wit);
+   printf("STAT cases=%ld configs=%ld expert_duration_configs=%ld frames_with_lookahead=%ld packet_bytes=%ld witnesses=%ld\n", frames, distinct_cfg, expert_cfg, lookahead_frames, bytes, n_wit);
 }
 
 /* ---- dec: the three decoder entry points on the same packet stream */
 static void run_dec(uint64_t seed, long cases)
 {
-   long c, frames = 0, samples = 0, clipped = 0, lost = 0, sat = 0;
+   long c, frames = 0, samples = 0, clipped = 0, lost = 0, sat = 0, n_resets = 0, n_resets_carrying = 0;
    static float pf[2880 * 2], of[5760 * 2], tmp[5760 * 2]; static opus_int16 o16[5760 * 2]; static opus_int32 o24[5760 * 2];
    unsigned char pkt[4000];
    for (c = case0; c < case0 + cases; c++) {
-      vrng r; int Fs, ch, dFs, dch, app, br, cx, vbr, cvbr, depth, fec, dtx, sig, err, f, nframes, kind, fsz, i, lossy;
+      vrng r; int Fs, ch, dFs, dch, app, br, cx, vbr, cvbr, depth, fec, dtx, sig, err, f, nframes, kind, fsz, i, lossy, resetting;
       double amp; OpusEncoder *enc; OpusDecoder *d16, *d24, *df; double ph[2] = {0, 0.7}; float mem[2] = {0, 0};
       char inp[400], exp[200], obs[240];
       r.s = seed * 1000003ULL + c + 0x0DEC;
@@ -337,15 +359,25 @@ static void run_dec(uint64_t seed, long cases)
       fsz = durs48[vbelow(&r, 6)] * (Fs / 1000) / 48;
       kind = vbelow(&r, 5); amp = vchance(&r, 35) ? 1.0 + 0.6 * vunit(&r) : 0.02 + 0.9 * vunit(&r); nframes = vrange(&r, 5, 12);
       lossy = vchance(&r, 35);
+      /* resetting streams: OPUS_RESET_STATE on the three decoders at random frame boundaries (the reference soft-clip memory is
+         cleared at the same points: a reset decoder is a fresh decoder); biased to loud low-frequency content so that the soft
+         clipper is carrying a coefficient across the boundary when the reset comes */
+      resetting = vchance(&r, 45);
+      if (resetting && vchance(&r, 75)) { amp = 1.1 + 0.7 * vunit(&r); if (vchance(&r, 70)) kind = vchance(&r, 70) ? 0 : 1; if (vchance(&r, 60)) lossy = 0; }
       enc = opus_encoder_create(Fs, ch, app, &err);
       opus_encoder_ctl(enc, OPUS_SET_BITRATE(br)); opus_encoder_ctl(enc, OPUS_SET_COMPLEXITY(cx)); opus_encoder_ctl(enc, OPUS_SET_VBR(vbr));
       opus_encoder_ctl(enc, OPUS_SET_INBAND_FEC(fec)); opus_encoder_ctl(enc, OPUS_SET_PACKET_LOSS_PERC(fec ? 20 : 0)); opus_encoder_ctl(enc, OPUS_SET_DTX(dtx));
       d16 = opus_decoder_create(dFs, dch, &err); d24 = opus_decoder_create(dFs, dch, &err); df = opus_decoder_create(dFs, dch, &err);
-      snprintf(inp, sizeof inp, "c13_pcm dec %llu: case %ld Fs=%d ch=%d decoder %d Hz %d ch app=%d bitrate=%d complexity=%d vbr=%d fec=%d dtx=%d frame=%d kind=%d amp=%.3f lossy=%d",
-               (unsigned long long)seed, c, Fs, ch, dFs, dch, app, br, cx, vbr, fec, dtx, fsz, kind, amp, lossy);
+      snprintf(inp, sizeof inp, "c13_pcm dec %llu: case %ld Fs=%d ch=%d decoder %d Hz %d ch app=%d bitrate=%d complexity=%d vbr=%d fec=%d dtx=%d frame=%d kind=%d amp=%.3f lossy=%d resets=%d",
+               (unsigned long long)seed, c, Fs, ch, dFs, dch, app, br, cx, vbr, fec, dtx, fsz, kind, amp, lossy, resetting);
       for (f = 0; f < nframes; f++) {
          int len, n16, n24, nf, lose = lossy && f > 1 && vchance(&r, 20), usefec = 0, maxfs = dFs / 25 * 3, plcfs = durs48[vbelow(&r, 6)] * (dFs / 1000) / 48;
          opus_uint32 r16, r24, rf;
+         if (resetting && f > 0 && vchance(&r, 35)) {
+            n_resets++; if (mem[0] != 0.f || mem[1] != 0.f) n_resets_carrying++;
+            opus_decoder_ctl(d16, OPUS_RESET_STATE); opus_decoder_ctl(d24, OPUS_RESET_STATE); opus_decoder_ctl(df, OPUS_RESET_STATE);
+            mem[0] = mem[1] = 0;
+         }
          gen_float(&r, pf, fsz, ch, kind, ph, amp);
          len = opus_encode_float(enc, pf, fsz, pkt, sizeof pkt);
          if (len < 0) break;
@@ -391,7 +423,7 @@ static void run_dec(uint64_t seed, long cases)
       }
       opus_encoder_destroy(enc); opus_decoder_destroy(d16); opus_decoder_destroy(d24); opus_decoder_destroy(df);
    }
-   printf("STAT cases=%ld streams=%ld samples=%ld frames_soft_clipped=%ld lost_frames=%ld saturated_samples=%ld witnesses=%ld\n", frames, cases, samples, clipped, lost, sat, n_wit);
+   printf("STAT cases=%ld streams=%ld samples=%ld frames_soft_clipped=%ld lost_frames=%ld saturated_samples=%ld resets=%ld resets_with_softclip_state=%ld witnesses=%ld\n", frames, cases, samples, clipped, lost, sat, n_resets, n_resets_carrying, n_wit);
 }
 
 /* ---- ms: the same relations stream by stream through the multistream API */
@@ -428,6 +460,10 @@ static void run_ms(uint64_t seed, long cases)
                (unsigned long long)seed, c, Fs, ch, fam, streams, coupled, br, cx, vbr, cvbr, depth, fsz, kind, amp);
       for (f = 0; f < nframes; f++) {
          int l16, l24, lf, n16, n24, nf; opus_uint32 r16, r24, rf, q16, q24, qf;
+         if (f > 0 && (c & 1) && vchance(&r, 30)) {   /* mid-stream reset of the three decoders; a reset decoder has a cleared soft-clip memory */
+            opus_multistream_decoder_ctl(d16, OPUS_RESET_STATE); opus_multistream_decoder_ctl(d24, OPUS_RESET_STATE); opus_multistream_decoder_ctl(df, OPUS_RESET_STATE);
+            for (i = 0; i < 8; i++) mem[i] = 0;
+         }
          gen_int16(&r, p16, fsz, ch, kind, ph, amp);
          for (i = 0; i < fsz * ch; i++) { p24[i] = 256 * (opus_int32)p16[i]; pf[i] = (float)p16[i] / 32768.f; }
          l16 = opus_multistream_encode(es[0], p16, fsz, k16, sizeof k16);
